@@ -125,6 +125,32 @@ int main(int argc, char** argv) {
         do_put(k, false, false, 0);
         if (i % 16 == 15 || (i >= 118 && i < 140)) do_mem();
     }
+    // preamble: split sweep.  A family of 16 keys in one border (short keys, 7-byte / exactly-8-byte keys and next-layer links of the same
+    // slice), in layer 0 and below an 8-byte prefix: for every j the 15 others are inserted, then key j arrives as the 16th and splits
+    // the full border at its rank; dump, point lookups of all 16, then everything is removed again
+    if (argi("splitsweep", 0)) {
+        auto do_rem = [&](const std::string& k) { status rc = remove(tok, st, k); std::string o = "{\"op\":\"rem\",\"k\":" + vh::jbytes(k) + ",\"st\":\"" + vh::stname(rc) + "\"}"; puts(o.c_str()); if (rc == status::OK) present[k] = false; };
+        auto do_get = [&](const std::string& k) { std::pair<char*, std::size_t> out{nullptr, 0}; std::pair<node_version64_body, node_version64*> cv{}; status rc = get<char>(st, k, out, &cv); vh::Canon c(ti);
+            std::string o = "{\"op\":\"get\",\"k\":" + vh::jbytes(k) + ",\"st\":\"" + vh::stname(rc) + "\"";
+            if (rc == status::OK) o += ",\"v\":" + std::string(out.first ? std::to_string(*(int*)out.first) : "-1") + ",\"len\":" + std::to_string(out.second);
+            else o += ",\"nv\":[[" + std::to_string(c.ofver(cv.second)) + "," + std::to_string(cv.first.get_vinsert_delete()) + "," + std::to_string(cv.first.get_vsplit()) + "]]";
+            o += "}"; puts(o.c_str()); };
+        for (int variant = 0; variant < 6; variant++) {
+            std::string pre = variant % 2 ? std::string(8, 'L') : std::string(); int nsmall = 5 + variant / 2;      // 5..7 one-byte keys in front: the P / Q tuples land on different ranks
+            std::vector<std::string> fam; for (int i = 0; i < nsmall; i++) fam.push_back(std::string(1, (char)('A' + i)));
+            for (std::string x : {std::string(7, 'P'), std::string(8, 'P'), std::string(8, 'P') + "x", std::string(8, 'Q'), std::string(8, 'Q') + "yz"}) fam.push_back(x);
+            for (int i = 0; fam.size() < 16; i++) fam.push_back("Z" + std::string(1, (char)('a' + i)));
+            for (auto& k : fam) k = pre + k;
+            std::sort(fam.begin(), fam.end());
+            for (auto& k : fam) if (std::find(keys.begin(), keys.end(), k) == keys.end()) keys.push_back(k);
+            for (std::size_t j = 0; j < fam.size(); j++) {
+                for (std::size_t i = 0; i < fam.size(); i++) if (i != j) do_put(fam[i], false, false, 0);
+                do_put(fam[j], false, false, 0); do_mem();
+                for (auto& k : fam) do_get(k);
+                if (j % 2) for (auto& k : fam) do_rem(k); else for (std::size_t i = fam.size(); i-- > 0;) do_rem(fam[i]);
+            }
+        }
+    }
     long psweep = argi("psweep", 0), pdrain = argi("pdrain", 0); std::vector<std::string> sweep;   // sorted runs of removes that empty whole borders
     for (long opno = 1; opno <= nops; opno++) {
         long x = rng() % 100; long acc = 0;
